@@ -14,7 +14,7 @@ from ..gen import queries as Q
 from ..gen.filters import FilterGen
 from ..gen.render import Renderer, canonical
 from ..ref import typing9535 as T
-from ..run import Stats, hyp_run, mix
+from ..run import Stats, hyp_run, mix, rng_for
 from ..strict import canon, short
 
 import jsonpath
@@ -348,7 +348,7 @@ def t_random(seed, n):
 
     def body(x):
         doc, s = x
-        rng = random.Random(s)
+        rng = rng_for(s)
         stats.case()
         fg = FilterGen(rng, doc, depth=3)
         e = fg.logical(list(doc.values()) if isinstance(doc, dict) else list(doc), 3)
